@@ -1,4 +1,5 @@
 import PwVerif.Proofs.Signal
+import PwVerif.Proofs.Signal2
 /-!
 # C02 — Execution signals: any-of / all-of triggers fire exactly once; flows follow them
 
@@ -186,6 +187,106 @@ theorem C02_all_round_repaired (conns0 : List Nat) (hist : List Ev) (k1 k2 : Nat
 example : (fresh [1, 0]).firedAt id [.arrive 0, .arrive 1] 0 = false ∧
           (fresh [1, 0]).firedAt id [.arrive 0, .arrive 1] 1 = true := by decide
 
+/-- RELABELLING AN EMITTER IN THE MIDDLE OF A ROUND (same root cause as `C02_all_early_witness`: the memory holds
+label strings): `a` (emitter 0) arrives, is then relabelled (its label 0 becomes 7 — the theorems above fix `lab` for a
+whole history, so this is outside them), `b` arrives: both connected emitters have signalled since the last firing,
+yet the pinned trigger does not fire; keyed by identity (labels never consulted, `lab = id` throughout) it does -/
+theorem C02_relabel_midround_witness :
+    let a1 := ((fresh [1, 0]).step id (.arrive 0)).1
+    (a1.step (fun e => if e = 0 then 7 else e) (.arrive 1)).2 = false ∧ (a1.step id (.arrive 1)).2 = true := by decide
+
+/-! ## whatever the callback does (returns, raises, comes back to its own trigger)
+
+`execTop true` is the pinned trigger (`reset()` before `callback()`) driven by a script of acts: every event
+carries what the callback does if the event fires it — a list of further acts on the same trigger (to any depth:
+parentless nodes fire depth-first) and whether it then raises; exceptions leave all enclosing callbacks and are
+caught by whoever performed the top-level event. All statements are about the events that were really performed
+(`evs`) and the firing flags observed (`fires`), for EVERY script and every fuel. -/
+
+/-- the trigger has lived through the flat history `evs`; flag `k` is `firedAt evs k` -/
+theorem C02_callback_outcomes_are_histories (lab : Nat → Label) (conns0 : List Nat) (fuel : Nat) (script : List Act) :
+    let t := execTop true lab fuel (fresh conns0) script
+    t.acc = (fresh conns0).run lab t.evs ∧
+      ∀ k, k < t.evs.length → t.fires[k]? = some ((fresh conns0).firedAt lab t.evs k) := by
+  intro t
+  obtain ⟨h1, h2⟩ := execTop_flat lab fuel script (fresh conns0)
+  refine ⟨h1, fun k hk => ?_⟩
+  have h2' : t.fires = (fresh conns0).flags lab t.evs := h2
+  rw [h2']
+  exact Acc.flags_get lab _ _ k hk
+
+theorem fired_of_flag {lab : Nat → Label} {conns0 : List Nat} {fuel : Nat} {script : List Act} {k : Nat}
+    (h : (execTop true lab fuel (fresh conns0) script).fires[k]? = some true) :
+    (fresh conns0).firedAt lab (execTop true lab fuel (fresh conns0) script).evs k = true := by
+  obtain ⟨_, h2⟩ := execTop_flat lab fuel script (fresh conns0)
+  have hk : k < (execTop true lab fuel (fresh conns0) script).evs.length := by
+    have := (List.getElem?_eq_some_iff.1 h).1
+    rw [h2, Acc.flags_length] at this
+    exact this
+  have := (C02_callback_outcomes_are_histories lab conns0 fuel script).2 k hk
+  rw [h] at this
+  exact (Option.some.inj this).symm
+
+/-- NEVER EARLY, for every pattern of callback outcomes -/
+theorem C02_all_never_early_any_outcome (lab : Nat → Label) (conns0 : List Nat) (fuel : Nat) (script : List Act) (k : Nat) :
+    let t := execTop true lab fuel (fresh conns0) script
+    (∀ e e', e ∈ ((fresh conns0).before lab t.evs k).conns → Ev.arrive e' ∈ t.evs → lab e = lab e' → e = e') →
+    t.fires[k]? = some true →
+    ∀ e ∈ ((fresh conns0).before lab t.evs k).conns,
+      ∃ j, j ≤ k ∧ t.evs[j]? = some (.arrive e) ∧
+        ∀ i, j ≤ i → i < k → (fresh conns0).firedAt lab t.evs i = false := by
+  intro t hinj hfire
+  exact C02_all_never_early lab conns0 t.evs k hinj (fired_of_flag hfire)
+
+/-- ONCE PER ROUND, for every pattern of callback outcomes — in particular after a callback that raised -/
+theorem C02_all_round_any_outcome (lab : Nat → Label) (conns0 : List Nat) (fuel : Nat) (script : List Act)
+    (k1 k2 : Nat) (hk : k1 < k2) :
+    let t := execTop true lab fuel (fresh conns0) script
+    (∀ e e', e ∈ ((fresh conns0).before lab t.evs k2).conns → Ev.arrive e' ∈ t.evs → lab e = lab e' → e = e') →
+    t.fires[k1]? = some true → t.fires[k2]? = some true →
+    ∀ e ∈ ((fresh conns0).before lab t.evs k2).conns, ∃ j, k1 < j ∧ j ≤ k2 ∧ t.evs[j]? = some (.arrive e) := by
+  intro t hinj h1 h2
+  exact C02_all_round lab conns0 t.evs k1 k2 hk hinj (fired_of_flag h1) (fired_of_flag h2)
+
+/-- FRESH ROUND: a firing leaves an empty memory behind, also when its callback raises: what is heard while the
+callback runs already belongs to the next round -/
+theorem C02_all_resets_any_outcome (lab : Nat → Label) (conns0 : List Nat) (fuel : Nat) (script : List Act) (k : Nat) :
+    let t := execTop true lab fuel (fresh conns0) script
+    t.fires[k]? = some true → ((fresh conns0).before lab t.evs (k + 1)).received = [] := by
+  intro t h
+  exact C02_all_resets lab conns0 t.evs k (fired_of_flag h)
+
+/-- FIRES AT COMPLETION, for every pattern of callback outcomes -/
+theorem C02_all_complete_fires_any_outcome (lab : Nat → Label) (conns0 : List Nat) (fuel : Nat) (script : List Act)
+    (k : Nat) (ev : Ev) :
+    let t := execTop true lab fuel (fresh conns0) script
+    t.evs[k]? = some ev → ev.isCall = true →
+    (∀ e ∈ ((fresh conns0).before lab t.evs k).conns,
+      ∃ j, j ≤ k ∧ t.evs[j]? = some (.arrive e) ∧ ∀ i, j ≤ i → i < k → (fresh conns0).firedAt lab t.evs i = false) →
+    t.fires[k]? = some true := by
+  intro t hev hcall hall
+  have hk : k < t.evs.length := (List.getElem?_eq_some_iff.1 hev).1
+  rw [(C02_callback_outcomes_are_histories lab conns0 fuel script).2 k hk,
+    C02_all_complete_fires lab conns0 t.evs k ev hev hcall hall]
+
+/-- a round completed by `b`, whose callback raises; then `b` again (one of two), then `a` (two of two) -/
+def raisingScript : List Act := [.mk (.arrive 0) false [], .mk (.arrive 1) true [], .mk (.arrive 1) false [], .mk (.arrive 0) false []]
+
+/-- a callback that hears `a` again while it runs (depth-first self loop), then `b`: the round is complete -/
+def reenteringScript : List Act := [.mk (.arrive 0) false [], .mk (.arrive 1) false [.mk (.arrive 0) false []], .mk (.arrive 1) false []]
+
+example : (execTop true id 20 (fresh [1, 0]) raisingScript).fires = [false, true, false, true] ∧
+          (execTop true id 20 (fresh [1, 0]) reenteringScript).fires = [false, true, false, true] := by decide
+
+/-- RESETTING AFTER THE CALLBACK (seeded change C02-1) breaks it: a raising callback leaves the completed round in
+the memory, so the next single arrival fires early (flags `[_, fire, fire, …]` although `a` has not signalled
+again), the memory is not empty after a firing, and what a re-entering callback heard is wiped, so a complete
+round does not fire -/
+theorem C02_reset_after_callback_witness :
+    (execTop false id 20 (fresh [1, 0]) raisingScript).fires = [false, true, true, false] ∧
+    (execTop false id 20 (fresh [1, 0]) [.mk (.arrive 0) false [], .mk (.arrive 1) true []]).acc.received ≠ [] ∧
+    (execTop false id 20 (fresh [1, 0]) reenteringScript).fires = [false, true, true, false] := by decide
+
 /-! ## flows -/
 
 /-- REFINEMENT, from any related pair of trigger memories: for every signal graph satisfying `WF`
@@ -316,6 +417,78 @@ example :
     (compositeRunFrom (nodeSem termNodes) clashGraph.toGraph 0 (S.init Store.init (fun r => if r = 3 then [7] else []))).received 3 = [7] := by
   decide +kernel
 
+/-! ## running a hand-wired flow again after a failure -/
+
+/-- RE-RUN: whatever an earlier run `p` left behind — it may have stopped anywhere (`p` is ANY state: pending queue
+entries, half-filled all-of triggers, failed children) — and whatever is repaired in between (`heal`: clearing
+`failed` flags, new input values …), the next fresh run is the plain queue interpreter started on the healed store
+with empty memories: nothing of the interrupted round leaks (commit bc0a763) -/
+theorem C02_rerun_refines_queue {σ} (sem : Sem σ) (g : Graph) (wf : WF g) (p : S σ) (heal : σ → σ) (fuel : Nat) :
+    let m := compositeRun sem g fuel (S.init (heal p.store) p.received)
+    let q := Spec.queueInterp sem g (g.starters.length + fuel) (Spec.init g (heal p.store) (fun _ => []))
+    m.fired = q.fired ∧ m.store = q.store ∧ m.errs = q.errs ∧
+      q.fifo = m.queue.map (fun p => (some p.1, p.2)) :=
+  C02_refines_queue sem g wf (heal p.store) p.received fuel
+
+/-- `0 >> 1 >> 4`, `0 >> 2`, `3 << (4, 2)` (distinct labels); child 2 fails at its first attempt -/
+def diamondGraph : FinGraph :=
+  { conns := [[⟨2, false⟩, ⟨1, false⟩], [], [], [],   [⟨4, false⟩], [], [], [],   [⟨3, true⟩], [], [], [],
+              [], [], [], [],   [⟨3, true⟩], [], [], []],
+    accConns := [[], [], [], [16, 8], []], labs := List.range 20, starters := [0] }
+
+example : diamondGraph.check = true := by decide
+
+def failingNodes : Nat → Node := fun i =>
+  { kind := .term i, slots := [⟨.d, []⟩, ⟨.d, []⟩, ⟨.d, []⟩], useCache := true, failAt := if i = 2 then [1] else [] }
+
+/-- clear `failed` of child 2 and the provenance, as between two runs -/
+def healed (st : Store) : Store := { st with failed := updF st.failed 2 false, execLog := [], doneLog := [] }
+
+/-- WITNESS that the reset is needed: run 1 — child 2 fails, the join 3 has heard `4.ran` only. Run 2 after healing:
+with the reset the join runs last, once; continuing with the stale memory (`compositeRunFrom`, the tree before
+bc0a763) it runs as soon as 2 has run — before 4 has run in this run -/
+theorem C02_rerun_stale_memory_witness :
+    let p := compositeRun (nodeSem failingNodes) diamondGraph.toGraph 100 (S.init Store.init (fun _ => []))
+    p.received 3 = [16] ∧
+    (compositeRun (nodeSem failingNodes) diamondGraph.toGraph 100 (S.init (healed p.store) p.received)).fired = [0, 2, 1, 4, 3] ∧
+    (compositeRunFrom (nodeSem failingNodes) diamondGraph.toGraph 100 (S.init (healed p.store) p.received)).fired = [0, 2, 1, 3, 4] := by
+  decide +kernel
+
+/-! ## two composites: a hand-wired macro as one child of a hand-wired workflow, signals crossing the boundary
+
+`runTwo T` (Model/Signal2.lean) is the workflow `W` with the macro child `M`: two queues, `M` running only during its
+own `run()`, a finishing child hands its signals to its parent's queue if the parent is running and otherwise serves
+its receivers itself, depth-first, an exception in there leaving its `run()`. `labelTrig` is the library's all-of
+trigger, `identTrig` the plain interpreter's. -/
+
+/-- REFINEMENT for two composites: for every wiring (any signal may cross the boundary, in both directions, cycles
+allowed) that satisfies `WF`, every child behaviour, every fuel and number of deliveries — the transcribed machine
+and the plain two-queue interpreter invoke the same `run()`s in the same order (all scopes interleaved), hold the
+same store, report the same errors at both levels and have the same entries pending in both queues -/
+theorem C02_two_composites_refine {σ} (sem : Sem σ) (w : Two) (wf : WF w.g) (fuel steps : Nat) (st : σ) :
+    let m := runTwo labelTrig sem w fuel steps st
+    let q := runTwo identTrig sem w fuel steps st
+    m.fired = q.fired ∧ m.store = q.store ∧ m.errs0 = q.errs0 ∧ m.errs1 = q.errs1 ∧ m.q0 = q.q0 ∧ m.q1 = q.q1 ∧
+      m.mFailed = q.mFailed := by
+  intro m q
+  have h := runTwo_sim sem w wf fuel steps st
+  exact ⟨h.fired, h.store, h.errs0, h.errs1, h.q0, h.q1, h.mFailed⟩
+
+/-- `W`: children 0, 1, 2 and the macro 5 with children 3 >> 4 (starting node 3); `0 >> 5 >> 1`; across the boundary
+`4 >> 2` (out of the running macro) and `1 >> 3` (into the idle macro) -/
+def twoExample : Two :=
+  { g := ({ conns := [[⟨5, false⟩], [], [], [],   [⟨3, false⟩], [], [], [],   [], [], [], [],   [⟨4, false⟩], [], [], [],
+                      [⟨2, false⟩], [], [], [],   [⟨1, false⟩], [], [], []],
+            accConns := [[], [], [], [], [], []], labs := List.range 24, starters := [0] } : FinGraph).toGraph,
+    owner := fun i => if i = 3 ∨ i = 4 then 1 else 0, macroNode := 5, mStarters := [3], mChildren := [3, 4] }
+
+/-- non-vacuity, and exactly what the real objects do (probed, and a corpus case of the check): 2 runs inside the
+macro's run because 4's signal is served by the macro's loop; after the macro, 1 runs and reaches INTO the idle macro:
+3 and 4 run depth-first, 4 reaches 2 again -/
+example : (runTwo labelTrig (nodeSem termNodes) twoExample 50 50 Store.init).fired = [0, 5, 3, 4, 2, 1, 3, 4, 2] ∧
+          (runTwo identTrig (nodeSem termNodes) twoExample 50 50 Store.init).fired = [0, 5, 3, 4, 2, 1, 3, 4, 2] := by
+  decide +kernel
+
 /-! ## hand-wired macros (`Macro._configure_graph_execution`) -/
 
 /-- the pinned macro — disconnect every run signal, reconnect pair by pair — keeps every hand-made
@@ -390,11 +563,21 @@ end PwVerif.C02
 #print axioms PwVerif.C02.C02_all_early_witness_twice
 #print axioms PwVerif.C02.C02_all_never_early_repaired
 #print axioms PwVerif.C02.C02_all_round_repaired
+#print axioms PwVerif.C02.C02_relabel_midround_witness
+#print axioms PwVerif.C02.C02_callback_outcomes_are_histories
+#print axioms PwVerif.C02.C02_all_never_early_any_outcome
+#print axioms PwVerif.C02.C02_all_round_any_outcome
+#print axioms PwVerif.C02.C02_all_resets_any_outcome
+#print axioms PwVerif.C02.C02_all_complete_fires_any_outcome
+#print axioms PwVerif.C02.C02_reset_after_callback_witness
 #print axioms PwVerif.C02.C02_refines_queue_from
 #print axioms PwVerif.C02.C02_refines_queue
 #print axioms PwVerif.C02.C02_refines_queue_values
 #print axioms PwVerif.C02.C02_value
 #print axioms PwVerif.C02.C02_flow_early_witness
+#print axioms PwVerif.C02.C02_rerun_refines_queue
+#print axioms PwVerif.C02.C02_rerun_stale_memory_witness
+#print axioms PwVerif.C02.C02_two_composites_refine
 #print axioms PwVerif.C02.C02_macro_edges_kept
 #print axioms PwVerif.C02.C02_macro_reorders_witness
 #print axioms PwVerif.C02.C02_macro_order_repaired
